@@ -6,6 +6,7 @@ import (
 	"os"
 	"os/exec"
 	"path/filepath"
+	"sort"
 	"strings"
 	"sync"
 	"time"
@@ -337,6 +338,51 @@ func pipeline(env *Env, chk *Check, res *Result, cases []Case, open map[string]F
 			continue
 		}
 		badCases[b.Case] = append(badCases[b.Case], b)
+	}
+	// mechanism-level pass: recorded searches matched action by action against the design module
+	if chk.Mech != nil && os.Getenv("VERIF_DEV_SKIP_MECH") == "" {
+		var mt []Case
+		for _, t := range traces {
+			if p := chk.Mech.Project(t); p != nil {
+				mt = append(mt, p)
+			}
+		}
+		if limit := env.Pick(chk.Mech.Quick, chk.Mech.Thorough); limit > 0 && len(mt) > limit {
+			// the searches with the most events first (conflicts, learning, restarts), the trivial ones last
+			sort.SliceStable(mt, func(a, b int) bool { return countEvents(mt[a]) > countEvents(mt[b]) })
+			mt = mt[:limit]
+		}
+		if len(mt) > 0 {
+			mb, mst, err := ValidatePer(env, chk.Mech.Module, mt, tag+"-mech", 80)
+			if err != nil {
+				return nil, 2, err
+			}
+			res.States += mst.Distinct
+			res.Transitions += mst.Generated
+			nmev := 0
+			for _, t := range mt {
+				nmev += countEvents(t)
+			}
+			res.Cov["mech.searches"] += len(mt)
+			res.Cov["mech.events"] += nmev
+			res.Cov["mech.accepted"] += len(mt) - len(mb)
+			env.Logf("TLC matched %d recorded searches (%d events) against the actions of %s: %d states, %d not a behaviour of the mechanism model", len(mt), nmev, chk.Mech.Module, mst.Distinct, len(mb))
+			for _, b := range mb {
+				res.Cov["diag."+b.Why]++
+				if len(res.Notes) < 20 {
+					res.Notes = append(res.Notes, fmt.Sprintf("divergence %s at case %s search event %d (mechanism-level diagnostic, not a property clause)", b.Why, b.Case, b.Ev))
+				}
+				if dir := os.Getenv("VERIF_DEV_KEEP_DIAG"); dir != "" && res.Cov["diag."+b.Why] <= 5 { // development aid
+					rec := map[string]any{"property": chk.ID, "trace_module": chk.Mech.Module, "clause": b.Why, "event": b.Ev, "case": inByID[b.Case], "trace": byID[b.Case]}
+					bb, _ := json.MarshalIndent(rec, "", " ")
+					os.MkdirAll(dir, 0o755)
+					os.WriteFile(filepath.Join(dir, fmt.Sprintf("%s-mech-%s.json", chk.ID, b.Case)), bb, 0o644)
+				}
+				if chk.Amplify != nil && tag == "main" && len(follow) < 3000 {
+					follow = append(follow, chk.Amplify(env, inByID[b.Case], byID[b.Case], b.Why)...)
+				}
+			}
+		}
 	}
 	res.Evaluations += len(traces)
 	for _, t := range traces {
